@@ -192,15 +192,33 @@ class Cell(NullCell):
         # Hash_repr(c) := sha256(CellRepr(c))
         return hashlib.sha256(self.get_representation()).digest()
 
-    def order(self, result: dict = {}) -> dict:
+    def order(self, result: dict = None) -> dict:
         """
         :return: dict {<Cell>: <index>}
         """
-        if self in result:
-            result.pop(self)
-        result[self] = None
-        for ref in self.refs:
-            ref.order(result)
+        if result is None:
+            result = {}
+        # iterative depth-first search: every distinct cell is visited once, so shared
+        # sub-DAGs are not re-traversed per path and deep chains do not hit the recursion limit
+        visited = {}
+        post_order = []
+        stack = [(self, False)]
+        while stack:
+            cell, done = stack.pop()
+            if done:
+                post_order.append(cell)
+                continue
+            if cell in visited:
+                continue
+            visited[cell] = None
+            stack.append((cell, True))
+            for ref in cell.refs:
+                stack.append((ref, False))
+        # reversed post-order is topological: every cell comes before the cells it references
+        for cell in reversed(post_order):
+            if cell in result:
+                result.pop(cell)
+            result[cell] = None
         return result
 
     def serialize(self, indexes: dict, byte_len: int) -> bytes:
